@@ -27,15 +27,15 @@ def run(index, rep):
     uc = index.methods(UC, "UnitConversions")
     rep.note_analysed("Food_methods", len(food))
     rep.note_analysed("UnitConversions_methods", len(uc))
-    typestate(food, uc, rep)
+    rep.guard(typestate, food, uc, rep)
     constructions = collect_constructions(food)
     rep.note_analysed("Food_constructions_in_Food", len(constructions))
-    labels(constructions, rep)
-    mul(food, rep)
-    lanes(constructions, food, uc, rep)
-    purity(food, rep)
-    guards(food, rep)
-    predicates(food, rep)
+    rep.guard(labels, constructions, rep)
+    rep.guard(mul, food, rep)
+    rep.guard(lanes, constructions, food, uc, rep)
+    rep.guard(purity, food, rep)
+    rep.guard(guards, food, rep)
+    rep.guard(predicates, food, rep)
 
 
 # =============================================================================== C11.TS
